@@ -5,8 +5,8 @@ import Driver.Util
 /-! line protocol of the `pcp` engine (C11, C12): the receiver model `sink`, the sender model `send`,
 the command-line construction and the two specifications, driven by checks/c11.py, checks/c12.py.
 
-    sink   P Y UMASK CNT REPAIRED CWD DEST STREAM FSENTRY...
-    rt     P Y UMASK CNT REPAIRED CWD DEST REVERSE HOST NFS FSENTRY... SRCTOKENS...
+    sink   P Y UMASK CNT RULE DIRCHMOD FSIZE CWD DEST STREAM FSENTRY...
+    rt     P Y UMASK CNT RULE DIRCHMOD FSIZE CWD DEST REVERSE HOST SUBSEC SENTFIX NFS FSENTRY... SRCTOKENS...
     spec11 P DESTPATH NFS FSENTRY... SRCTOKENS...
     spec12 DESTPATH PATH...
     cmdf   PROG R P NENT DEST            cmdr PROG R P HOST FILE...
@@ -15,6 +15,7 @@ the command-line construction and the two specifications, driven by checks/c11.p
   FSENTRY   = <path>:<d|f>:<mode octal>:<mtime>:<content>     path = hex of "a/b/c" ("-" = root)
   mtime     = ? | <sec> | <sec>.<usec>          content = - | h<hex> | g<seed>.<len>
   SRCTOKENS = pre-order:  F <name> <mode> <mtime> <atime> <content>  |  D <name> <mode> <mtime> <atime> ... )
+              (source times in MICROSECONDS)
   answers list file contents as <len>.<crc32>.
 -/
 namespace Driver.PcpDrv
@@ -148,12 +149,16 @@ def parseSrcs (ws : List String) : Option (List (Str × Tree)) :=
 
 def flag (s : String) : Bool := s = "1"
 
-def mkOpts (p y um cnt rep cwd dest : String) : Option Opts :=
-  match octVal um, cnt.toNat?, pathOfHex cwd, Hex.decode dest with
-  | some um, some cnt, some cwd, some dest =>
-    some { preserve := flag p, targetIsDir := flag y, umask := um, cnt := cnt, repaired := flag rep,
-           cwd := cwd, dest := dest }
-  | _, _, _, _ => none
+def ruleOf (s : String) : NameRule :=
+  if s = "1" then .slashDotdot else if s = "2" then .scp else .none
+
+/-- receiver options: P Y UMASK CNT RULE(0 none,1 slash-or-dotdot,2 scp) DIRCHMOD FSIZE(0 = no limit) CWD DEST -/
+def mkOpts (p y um cnt rule dch fsz cwd dest : String) : Option Opts :=
+  match octVal um, cnt.toNat?, fsz.toNat?, pathOfHex cwd, Hex.decode dest with
+  | some um, some cnt, some fsz, some cwd, some dest =>
+    some { preserve := flag p, targetIsDir := flag y, umask := um, cnt := cnt, rule := ruleOf rule,
+           dirChmod := flag dch, fsize := if fsz = 0 then none else some fsz, cwd := cwd, dest := dest }
+  | _, _, _, _, _ => none
 
 def showBad : Spec.Bad → String
   | .missing => "missing" | .kind => "kind" | .data => "data" | .mode => "mode" | .mtime => "mtime"
@@ -161,16 +166,17 @@ def showBad : Spec.Bad → String
 
 def handle (line : String) : String :=
   match Driver.words line with
-  | "sink" :: p :: y :: um :: cnt :: rep :: cwd :: dest :: stream :: fsw =>
-    match mkOpts p y um cnt rep cwd dest, Hex.decode stream, parseEntries fsw with
+  | "sink" :: p :: y :: um :: cnt :: rule :: dch :: fsz :: cwd :: dest :: stream :: fsw =>
+    match mkOpts p y um cnt rule dch fsz cwd dest, Hex.decode stream, parseEntries fsw with
     | some o, some stream, some es => showResult es (run o (fsOf es) stream)
     | _, _, _ => "bad-op"
-  | "rt" :: p :: y :: um :: cnt :: rep :: cwd :: dest :: rev :: host :: nfs :: rest =>
-    match mkOpts p y um cnt rep cwd dest, Hex.decode host, nfs.toNat? with
+  | "rt" :: p :: y :: um :: cnt :: rule :: dch :: fsz :: cwd :: dest :: rev :: host :: ssec :: sfix :: nfs :: rest =>
+    match mkOpts p y um cnt rule dch fsz cwd dest, Hex.decode host, nfs.toNat? with
     | some o, some host, some nfs =>
       match parseEntries (rest.take nfs), parseSrcs (rest.drop nfs) with
       | some es, some srcs =>
-        let stream := send { preserve := o.preserve, reverse := flag rev, host := host } srcs
+        let stream := send { preserve := o.preserve, reverse := flag rev, host := host, subsec := flag ssec,
+                             sentinelFix := flag sfix } srcs
         let shown := if stream.length ≤ 6000 then Hex.encode stream else "~"
         s!"nent={(expandAll srcs).length} c2slen={stream.length} c2scrc={(crc32 stream).toNat} c2s={shown} " ++
           showResult es (run o (fsOf es) stream)
